@@ -1179,6 +1179,10 @@ class BuiltinMixin:
     def b_html_escape(self, st, args, kwargs):
         return [(st, VStr(z3.Function("html_escape", S, S)(self._s(args[0]))))]
 
+    def b_re_escape(self, st, args, kwargs):
+        # trusted (DESIGN 3): re.escape(s) is a pattern matching exactly the text s
+        return [(st, VStr(z3.Function("re_escape", S, S)(self._s(args[0]))))]
+
     def b_html_unescape(self, st, args, kwargs):
         return [(st, VStr(z3.Function("html_unescape", S, S)(self._s(args[0]))))]
 
